@@ -37,8 +37,10 @@ pub struct OpenEventIndex {
 
 impl OpenEventIndex {
     pub fn create(id: BucketSegmentId, path: impl AsRef<Path>) -> Result<Self, EventIndexError> {
+        // Opened readable: the same handle serves lookups of the closed index once the
+        // background flush has replaced the in-memory map
         let file = OpenOptions::new()
-            .read(false)
+            .read(true)
             .write(true)
             .create_new(true)
             .open(path)?;
